@@ -58,6 +58,7 @@ class Result:
         self.max_depth = 0
         self.wall = 0.0
         self.revisits = 0
+        self.witnesses = []      # paths ending in a label of interest (e.g. 'resume'), for extra E2 validation
 
     def to_json(self):
         return {
@@ -70,7 +71,8 @@ class Result:
 
 
 def explore(world0, name='', max_states=200000, max_seconds=600.0, max_depth=4000,
-            seed=0, max_violations=40, stop_on_violation=False, max_terminal_paths=5000):
+            seed=0, max_violations=40, stop_on_violation=False, max_terminal_paths=5000,
+            witness_labels=(), max_witnesses=3000):
     '''Depth-first search with state matching.  Returns a Result.'''
     t0 = time.time()
     res = Result(name)
@@ -108,6 +110,8 @@ def explore(world0, name='', max_states=200000, max_seconds=600.0, max_depth=400
                 try:
                     w2.apply(label)
                     res.transitions += 1
+                    if witness_labels and label[0] in witness_labels and len(res.witnesses) < max_witnesses:
+                        res.witnesses.append(p2)
                     for f in w2.facts:
                         res.facts[f] = res.facts.get(f, 0) + 1
                     if depth >= max_depth:
